@@ -1,0 +1,81 @@
+//! Verification hooks; compiled only with `--cfg rescrv_blue_verif`.
+//!
+//! Step mode makes the memtable-flush loop and the compaction loop return to the caller instead
+//! of blocking on a condition variable (when idle) or looping (after one unit of work), so a
+//! single-threaded driver can interleave them with client operations deterministically.
+
+use std::cell::Cell;
+use std::sync::atomic::{AtomicBool, AtomicPtr, AtomicU64, Ordering};
+
+static STEP_MODE: AtomicBool = AtomicBool::new(false);
+
+pub fn set_step_mode(on: bool) {
+    STEP_MODE.store(on, Ordering::SeqCst);
+}
+
+pub fn step_mode() -> bool {
+    STEP_MODE.load(Ordering::SeqCst)
+}
+
+thread_local! {
+    static LAST_IDLE: Cell<bool> = const { Cell::new(false) };
+}
+
+/// Record whether the last step on this thread found nothing to do.
+pub fn set_last_idle(idle: bool) {
+    LAST_IDLE.with(|c| c.set(idle));
+}
+
+/// True iff the last stepped loop on this thread returned because it had no work.
+pub fn last_idle() -> bool {
+    LAST_IDLE.with(|c| c.get())
+}
+
+/// Number of store threads currently parked on one of the store's condition variables.
+pub static PARKED: AtomicU64 = AtomicU64::new(0);
+/// Incremented on every notify of one of the store's condition variables.
+pub static NOTIFY_EPOCH: AtomicU64 = AtomicU64::new(0);
+/// Incremented on every completed unit of work (flush, compaction, ingest).
+pub static PROGRESS: AtomicU64 = AtomicU64::new(0);
+/// When set, blocking loops return instead of waiting (used to tear down threaded runs).
+pub static STOP: AtomicBool = AtomicBool::new(false);
+
+pub fn parked_enter() {
+    PARKED.fetch_add(1, Ordering::SeqCst);
+}
+
+pub fn parked_exit() {
+    PARKED.fetch_sub(1, Ordering::SeqCst);
+}
+
+pub fn notified() {
+    NOTIFY_EPOCH.fetch_add(1, Ordering::SeqCst);
+}
+
+pub fn progressed() {
+    PROGRESS.fetch_add(1, Ordering::SeqCst);
+}
+
+pub fn stop() -> bool {
+    STOP.load(Ordering::SeqCst)
+}
+
+static YIELD_HOOK: AtomicPtr<()> = AtomicPtr::new(std::ptr::null_mut());
+
+/// Install a function called at named points inside the store (used to perturb schedules).
+pub fn set_yield_hook(f: Option<fn(u32)>) {
+    YIELD_HOOK.store(
+        f.map(|f| f as *mut ()).unwrap_or(std::ptr::null_mut()),
+        Ordering::SeqCst,
+    );
+}
+
+#[inline]
+pub fn yield_point(site: u32) {
+    let p = YIELD_HOOK.load(Ordering::Relaxed);
+    if !p.is_null() {
+        // SAFETY: only ever stored from a `fn(u32)` in set_yield_hook.
+        let f: fn(u32) = unsafe { std::mem::transmute(p) };
+        f(site);
+    }
+}
